@@ -345,9 +345,11 @@ class Fitter:
             cur = node.content
 
         if not to_end:
+            # Once nodes have been taken at this depth, the node that was open
+            # below it is gone: what remains starts with a closed node.
             self.unplaced = Slice(
                 drop_from_fragment(slice.content, slice_depth, taken),
-                slice.open_start,
+                min(slice.open_start, slice_depth) if taken else slice.open_start,
                 slice.open_end,
             )
         elif slice_depth == 0:
